@@ -369,6 +369,7 @@ class Extractor:
             self.walk_body(node.body)
         except _ReturnSignal:
             pass
+        self._inline_single_use()
         return Extraction(
             self.func,
             tuple(self.chooser.trace),
@@ -381,6 +382,94 @@ class Extractor:
             dict(self.vardefs),
             dict(self.loopdefs),
         )
+
+    def _inline_single_use(self):
+        """`x = f(..)` followed by exactly one use of `x` is the same program as the use with `f(..)` written in
+        place: a named call result that occurs once in the facts is replaced by its definition, so that introducing
+        (or inlining) a local for a sub-expression does not change the facts.  Kept opaque: state-changing calls
+        (pop/next: every call is its own value) and definitions that occur more than once (two textually equal
+        calls must stay two values)."""
+        import dataclasses
+        from collections import Counter
+        from .term import subst
+
+        if not self.vardefs:
+            return
+        defcount = Counter(self.vardefs.values())
+        cand = {}
+        for vid, d in self.vardefs.items():
+            if defcount[d] != 1 or d[0] != "call":
+                continue
+            f = d[1]
+            if (f[0] == "a" and f[2] in ("pop", "popleft", "popitem")) or f == ("n", "next"):
+                continue
+            cand[vid] = d
+        if not cand:
+            return
+        uses: Counter = Counter()
+
+        def scan(x):
+            if isinstance(x, tuple):
+                for s in subterms(x):
+                    if s[0] == "v" and len(s) == 3 and s[2] in cand:
+                        uses[s] += 1
+            elif isinstance(x, dict):
+                for v in x.values():
+                    scan(v)
+            elif isinstance(x, list):
+                for v in x:
+                    scan(v)
+
+        seen = set()
+        holders = []
+        for f in list(self.facts) + [r for rs in self.returns.values() for r in rs]:
+            if id(f) in seen:
+                continue
+            seen.add(id(f))
+            holders.append(f)
+            for fld in dataclasses.fields(f):
+                scan(getattr(f, fld.name))
+        for o in self.objects.values():
+            scan(o.ctor)
+            scan(o.frames)
+        for d in self.vardefs.values():
+            scan(d)
+        for d in self.loopdefs.values():
+            scan(d)
+        for d in self.chooser.trace:  # a value a static decision was taken on stays named (the configuration refers to it)
+            scan(d)
+            scan(d)
+        mapping = {v: cand[v[2]] for v, n in uses.items() if n == 1}
+        if not mapping:
+            return
+        for _ in range(4):  # definitions nested in definitions
+            mapping = {k: subst(d, mapping) for k, d in mapping.items()}
+
+        def sub(x):
+            if isinstance(x, tuple):
+                return subst(x, mapping)
+            if isinstance(x, dict):
+                return {k: sub(v) for k, v in x.items()}
+            if isinstance(x, list):
+                return [sub(v) for v in x]
+            return x
+
+        for f in holders:
+            for fld in dataclasses.fields(f):
+                old = getattr(f, fld.name)
+                new = sub(old)
+                if new != old:
+                    setattr(f, fld.name, new)
+        for o in self.objects.values():
+            o.ctor = sub(o.ctor)
+            o.frames = sub(o.frames)
+        for vid in list(self.vardefs):
+            self.vardefs[vid] = sub(self.vardefs[vid])
+        for k in list(self.loopdefs):
+            self.loopdefs[k] = sub(self.loopdefs[k])
+        for sc in self.scopes[:1]:
+            for k in list(sc):
+                sc[k] = sub(sc[k])
 
     def _bind_params(self, node, bindings: dict[str, Term], fname: str):
         args = node.args
